@@ -387,6 +387,8 @@ class Machine:
                 if t is None:
                     return Result(FAIL, ptr, events)
             else:
+                if self.strict_done and self.is_accepting(st) and st.transitions and all(x.error_handling for x in st.transitions):
+                    return Result(DONE, ptr, events)      # the postponed DONE of strict-done mode
                 t = self.select(st, inval)
                 if t is None:
                     return Result(DONE if self.is_accepting(st) else OK, ptr, events, stuck=True)
